@@ -50,6 +50,19 @@ Conventions that differ from the replay-buffer adapters (all reported):
   calls and bound to the kept array by bit-equality of the values).
 * sub-environment i of a vector env runs the episode script rotated by i, so
   the environments do not end their episodes in lock step.
+* rows that reach a learner: the module-level policy / value update functions
+  the train functions look up at call time (`train_policy_reinforce`,
+  `train_policy_actor_critic`, `train_policy_a2c`, `train_value_function` in
+  each module's namespace, `update_ppo`) are interposed; before the real one
+  runs, one `learn_rows` event carries every row of the batch it is handed
+  (obs tag, and - where the learner gets them - action, reward, successor,
+  termination flag; `has` names the fields present).  LoopTrace judges each
+  row against the ENVIRONMENT LOG (EvLearnRows / CRowVerdict): the row must be
+  one real step, whatever the layout of the batch (time-major, env-major,
+  shuffled).  A2C (2 envs x 3 steps per update) and PPO (2 envs x 3 vector
+  steps per iteration) run with several environments and several steps per
+  update in every scenario, so a layout mismatch between the columns of the
+  prepared batch shows.
 """
 from __future__ import annotations
 
@@ -133,6 +146,61 @@ def _final(policy, popt, vf, vopt):
     return final_digests(policy=policy, value_function=vf, policy_opt=popt, value_opt=vopt)
 
 
+
+# ------------------------------------------------------------------ rows that reach a learner
+_LEARNER_COLUMNS = dict(obs=("observations", "observation"), act=("actions", "action"), next=("next_observations", "next_observation"),
+                        r=("rewards", "reward"), term=("terminated", "terminations", "termination"))
+
+
+def _call_args(real, a, k):
+    """arguments of a call by parameter name (signature of the real function, also through nnx.jit / functools.wraps)"""
+    import inspect
+
+    try:
+        return dict(inspect.signature(real).bind(*a, **k).arguments)
+    except (TypeError, ValueError):
+        return dict(k)
+
+
+def _learner_wrapper(rec, real, label, discrete, start=0):
+    """Module-level update function `real` (looked up by the train function at call time): report every row of the batch
+    it is handed as one `learn_rows` event (taken from the ARGUMENTS only), then call it."""
+
+    def learner(*a, **k):
+        args = _call_args(real, a, k)
+        col = {}
+        for f, names in _LEARNER_COLUMNS.items():
+            for nm in names:
+                if nm in args and args[nm] is not None:
+                    col[f] = np.asarray(args[nm])
+                    break
+        if "obs" in col and col["obs"].ndim >= 1:
+            n = len(col["obs"])
+            has = [f for f in ("act", "r", "next", "term") if f in col and col[f].ndim >= 1 and len(col[f]) == n]
+            rows = []
+            for i in range(n):
+                row = dict(obs=decode_obs(col["obs"][i]), has=has)
+                if "act" in has:
+                    # discrete heads are trained on `action - action_space.start`
+                    row["act"] = _act(col["act"][i] + start if discrete else col["act"][i], discrete)
+                if "r" in has:
+                    row["r4"] = _r4(col["r"][i])
+                if "next" in has:
+                    row["next"] = decode_obs(col["next"][i])
+                if "term" in has:
+                    row["term"] = bool(np.asarray(col["term"][i]).reshape(-1)[0])
+                rows.append(row)
+            rec.emit("learn_rows", learner=label, lrows=rows, n=n)
+        return real(*a, **k)
+
+    return learner
+
+
+def _learners(rec, mod, names, discrete, start=0):
+    """interposition dict for those of `names` the module defines"""
+    return {nm: _learner_wrapper(rec, getattr(mod, nm), nm, discrete, start) for nm in names if hasattr(mod, nm)}
+
+
 # ------------------------------------------------------------------ REINFORCE / actor-critic (single env, EpisodeDataset)
 def _episode_dataset_wrapper(rec, real, discrete):
     import jax
@@ -182,8 +250,10 @@ def _single_env_pg(name, sc, discrete, mod, train, with_baseline=True):
     kwargs = dict(seed=sc["seed"], total_timesteps=sc["budget"], gamma=0.5, steps_per_update=sc.get("steps_per_update", 5),
                   train_after_episode=bool(sc.get("train_after_episode", False)), logger=logger, progress_bar=False)
     wrapper = _episode_dataset_wrapper(rec, mod.sample_trajectories, discrete)
+    learners = _learners(rec, mod, ("train_policy_reinforce", "train_policy_actor_critic", "train_value_function"), discrete,
+                         getattr(env.action_space, "start", 0) if discrete else 0)
     try:
-        with interpose(mod, sample_trajectories=wrapper):
+        with interpose(mod, sample_trajectories=wrapper, **learners):
             if with_baseline:
                 res, err = guarded(lambda: train(env, policy, popt, vf, vopt, **kwargs))
             else:
@@ -269,7 +339,8 @@ def run_a2c(sc):
     logger = recording_logger(rec)
     kwargs = dict(seed=sc["seed"], total_timesteps=sc["budget"], gamma=0.5, gae_lambda=0.5, steps_per_update=sc.get("steps_per_update", 3),
                   log_frequency=None, logger=logger, progress_bar=False)
-    with interpose(m, collect_trajectories=_a2c_wrapper(rec, m.collect_trajectories, True, n)):
+    learners = _learners(rec, m, ("train_policy_a2c", "train_value_function"), True, int(getattr(venv.single_action_space, "start", 0)))
+    with interpose(m, collect_trajectories=_a2c_wrapper(rec, m.collect_trajectories, True, n), **learners):
         res, err = guarded(lambda: m.train_a2c(envs, policy, popt, vf, vopt, **kwargs))
     cfg = _cfg("a2c", sc, n, sc["budget"], autoreset=True)
     return finish(rec, "a2c", sc, cfg, returned=None, final=_final(policy, popt, vf, vopt), error=err)
@@ -329,7 +400,8 @@ def run_ppo(sc):
     logger = recording_logger(rec) if sc.get("ppo_logger", True) else None
     bs = sc.get("ppo_batch", 3)  # vector steps per iteration
     iterations = max(1, sc["budget"] // (bs * n))
-    with interpose(m, collect_trajectories=_ppo_wrapper(rec, m.collect_trajectories, True, n, calls)):
+    learners = _learners(rec, m, ("update_ppo",), True)  # PPO hands the sampled actions to the learner as they are
+    with interpose(m, collect_trajectories=_ppo_wrapper(rec, m.collect_trajectories, True, n, calls), **learners):
         res, err = guarded(lambda: m.train_ppo(envs, policy, vf, popt, vopt, iterations=iterations, epochs=2, batch_size=bs, seed=sc["seed"],
                                                logger=logger, progress_bar=False))
     # one "step" of the routine is one vector step = N environment steps: iterations * batch_size * N environment steps in total
